@@ -34,6 +34,8 @@ type Env struct {
 	Err     string         // harness-level problem (lost barrier, timeout)
 	Retries int            // channel barriers that had to be re-sent
 	Dead    map[int64]bool // channel workers found stopped (Run returned): no barriers through them any more
+	// Racy: the run took a branch that only the Go scheduler decides (the traces are then not compared)
+	Racy string
 	// dones: the workers' done channels, read (hook) while the manager was quiescent
 	dones map[int64]<-chan struct{}
 }
@@ -120,6 +122,14 @@ type logger struct{ e *Env }
 func (logger) Enabled(context.Context, log.Level) bool { return true }
 
 func (l logger) Log(_ context.Context, _ log.Level, msg string, attrs ...log.Attr) {
+	if msg == "Ignoring update while sending channel difference" {
+		// sendOut's select took something from the worker's queue instead of the hand-over: which of the
+		// two happens is the Go scheduler's choice, the model always hands over first
+		l.e.mu.Lock()
+		l.e.Racy = "a channel worker dropped a queued update while handing forwarded updates to the main loop (sendOut's select)"
+		l.e.mu.Unlock()
+		return
+	}
 	if msg != "Removed inaccessible channel from tracking" {
 		return
 	}
